@@ -5,6 +5,7 @@ MGF1/KDF2, RFC 9380 expand_message_xmd), Spec/Aes.lean (FIPS 197, SP 800-38A CBC
 Code-shaped models: Model/Sha256.lean, Model/Md.lean, Model/Bc.lean.
 -/
 import RelicVerif.Lemmas.Md
+import RelicVerif.Lemmas.ShaStream
 
 namespace Relic.Props.C14
 open Relic.Spec Relic.Model Relic.Lemmas.Md
@@ -13,6 +14,36 @@ open Relic.Spec.Mac (Bytes Hash)
 /-- streaming SHA-256 = FIPS 180-4 for every message length and every chunking -/
 theorem sha256_streaming_conforms (chunks : List Bytes) (hlen : 8 * chunks.flatten.length < 2 ^ 64) :
     Sha256.mdMapChunks chunks = some (Spec.Sha256.sha256 chunks.flatten) := sha256_streaming chunks hlen
+
+/-- the RFC 6234 streaming code (one model for sha224-256.c and sha384-512.c: block buffer, Message_Block_Index,
+    length counter with overflow test, the two padding cases) = the Merkle–Damgård construction of FIPS 180-4
+    over the concatenation of the chunks, for every parameter set with room for the length field, every
+    chunking and every length the counter can hold -/
+theorem sha_streaming_generic {W : Type} (P : ShaStream.Params W) (hlb : P.lenBytes + 1 ≤ P.blockSize)
+    (chunks : List Bytes) (hlen : 8 * chunks.flatten.length < 2 ^ (8 * P.lenBytes)) :
+    ShaStream.run P chunks =
+      some ((P.digest (Spec.MD.hash P.blockSize P.lenBytes P.compress P.h0 chunks.flatten)).take P.hashSize) :=
+  Relic.Lemmas.ShaStream.run_eq P hlb chunks hlen
+
+/-- streaming SHA-224 (SHA224Reset / SHA224Input* / SHA224Result) = FIPS 180-4 for every chunking -/
+theorem sha224_streaming_conforms (chunks : List Bytes) (hlen : 8 * chunks.flatten.length < 2 ^ 64) :
+    ShaStream.run ShaStream.sha224P chunks = some (Spec.Sha256.sha224 chunks.flatten) :=
+  Relic.Lemmas.ShaStream.sha224_streaming chunks hlen
+
+/-- streaming SHA-384 (128-byte blocks, 128-bit length) = FIPS 180-4 for every chunking -/
+theorem sha384_streaming_conforms (chunks : List Bytes) (hlen : 8 * chunks.flatten.length < 2 ^ 128) :
+    ShaStream.run ShaStream.sha384P chunks = some (Spec.Sha512.sha384 chunks.flatten) :=
+  Relic.Lemmas.ShaStream.sha384_streaming chunks hlen
+
+/-- streaming SHA-512 = FIPS 180-4 for every chunking -/
+theorem sha512_streaming_conforms (chunks : List Bytes) (hlen : 8 * chunks.flatten.length < 2 ^ 128) :
+    ShaStream.run ShaStream.sha512P chunks = some (Spec.Sha512.sha512 chunks.flatten) :=
+  Relic.Lemmas.ShaStream.sha512_streaming chunks hlen
+
+/-- the parametric model instantiated at SHA-256 agrees with the dedicated SHA-256 model of round 1 -/
+theorem sha256_streaming_generic_conforms (chunks : List Bytes) (hlen : 8 * chunks.flatten.length < 2 ^ 64) :
+    ShaStream.run ShaStream.sha256P chunks = some (Spec.Sha256.sha256 chunks.flatten) :=
+  Relic.Lemmas.ShaStream.sha256_streaming' chunks hlen
 
 /-- HMAC, all key lengths -/
 theorem hmac_conforms (H : Hash) (hout : ∀ b, (H.h b).length = H.outLen) (hle : H.outLen ≤ H.blockLen)
@@ -39,6 +70,34 @@ theorem xmd_sha256_conforms (n : Nat) (inp dst : Bytes) (hlen : 8 * (inp.length 
   intro cs hcs
   have hcs' : cs.flatten.length ≤ 64 + inp.length + 32 + 259 := hcs
   exact sha256_streaming cs (by omega)
+
+/-- expand_message_xmd through the streaming SHA-224 / SHA-384 / SHA-512 implementations -/
+theorem xmd_sha224_conforms (n : Nat) (inp dst : Bytes) (hlen : 8 * (inp.length + 1000) < 2 ^ 64) :
+    Md.mdXmd Md.sha224Stream n inp dst
+      = Mac.expandMessageXmd { h := Spec.Sha256.sha224, outLen := 28, blockLen := 64 } inp dst n := by
+  apply mdXmd_eq Md.sha224Stream { h := Spec.Sha256.sha224, outLen := 28, blockLen := 64 } n inp dst
+    _ rfl rfl Relic.Lemmas.ShaStream.sha224_length (by decide) (by decide)
+  intro cs hcs
+  have hcs' : cs.flatten.length ≤ 64 + inp.length + 28 + 259 := hcs
+  exact Relic.Lemmas.ShaStream.sha224_streaming cs (by omega)
+
+theorem xmd_sha384_conforms (n : Nat) (inp dst : Bytes) (hlen : 8 * (inp.length + 1000) < 2 ^ 128) :
+    Md.mdXmd Md.sha384Stream n inp dst
+      = Mac.expandMessageXmd { h := Spec.Sha512.sha384, outLen := 48, blockLen := 128 } inp dst n := by
+  apply mdXmd_eq Md.sha384Stream { h := Spec.Sha512.sha384, outLen := 48, blockLen := 128 } n inp dst
+    _ rfl rfl Relic.Lemmas.ShaStream.sha384_length (by decide) (by decide)
+  intro cs hcs
+  have hcs' : cs.flatten.length ≤ 128 + inp.length + 48 + 259 := hcs
+  exact Relic.Lemmas.ShaStream.sha384_streaming cs (by omega)
+
+theorem xmd_sha512_conforms (n : Nat) (inp dst : Bytes) (hlen : 8 * (inp.length + 1000) < 2 ^ 128) :
+    Md.mdXmd Md.sha512Stream n inp dst
+      = Mac.expandMessageXmd { h := Spec.Sha512.sha512, outLen := 64, blockLen := 128 } inp dst n := by
+  apply mdXmd_eq Md.sha512Stream { h := Spec.Sha512.sha512, outLen := 64, blockLen := 128 } n inp dst
+    _ rfl rfl Relic.Lemmas.ShaStream.sha512_length (by decide) (by decide)
+  intro cs hcs
+  have hcs' : cs.flatten.length ≤ 128 + inp.length + 64 + 259 := hcs
+  exact Relic.Lemmas.ShaStream.sha512_streaming cs (by omega)
 
 /-- AES-CBC with PKCS#7: the model of bc_aes_cbc_enc is CBC ∘ PKCS#7, and decryption inverts encryption
     whenever the block decryption inverts the block encryption (hypothesis `hED`) -/
